@@ -16,6 +16,7 @@ META = {
             '(hooks at every atomic access and payload access) and comparing step trace, results, final head/tail, per-slot ledger state and tags, and the state after '
             'the destructor with the model evaluated in Coq; the property is also evaluated model-independently on the implementation\'s trace and results.',
     'payload_steps': 'every access to a slot payload is its own schedulable step in the code hooks and in the model: placement-new (data_write), move-out (data_read) and the destructor call (data_destroy); the invariant states that the payload is dead before the store that hands the slot back (C34/C35_payload_dead_before_release). The harness element type additionally checks that every construction / move-out / destruction touching a slot address happens while the thread\'s last granted hook is the matching payload site; a stray access (e.g. a destructor call moved behind the releasing store) and any constructOverLive / doubleDestroy / destroyUnborn on a slot address is a property failure. A deterministic probe family (full ring, each pop overload, producer spinning on each push variant and scheduled after every consumer step) runs on every tier.',
+    'capacity_checks': 'the harness is instantiated for 21 (Capacity, RoundUpToPowerOfTwo) configurations, 9 of them with real capacity kBufferSize-1 larger than the requested Capacity (2->3, 4->7, 5->7, 6->7, 8->15, 9->15, 10->15, 12->15, 16->31).  Model-independently, on the implementation\'s trace, results and scripts: every try_push_batch / try_pop_batch performs exactly min(requested, free space / available elements as observed at its second index load) payload accesses, size() = committed writes at its tail load - committed reads at its head load, empty()/full() report occupancy 0 / capacity(), delivered is a prefix of accepted, accepted = delivered ++ contents at the end, slot lifetimes.  Deterministic capacity grid: fill with single pushes to f in [Capacity-1, real capacity], pop j, batch-push k, drain, each phase alone.  When the real code differs from the model but no property failure was seen, a search ladder (full capacity grid, then 150 directed single/batch mixes per configuration) looks for a concrete failing input.',
     'note': 'Trusted: Coq kernel; harness/vsched.h, harness/life.h; SC interleaving of atomics (the acquire/release pairing that makes the payload accesses race-free on weak memory is not modelled). '
             'The three push variants (T&&, const T&, emplace) and the three pop variants share one access pattern and one set of hook names. No axioms.',
 }
@@ -34,7 +35,27 @@ SITES = ['start',
          'spsc.size.head_load', 'spsc.size.tail_load', 'spsc.empty.loads', 'spsc.full.loads',
          'spsc.pop.data_destroy', 'spsc.popb.data_destroy']
 TAGS = {'push': 1, 'pushfail': 2, 'pop': 3, 'popfail': 4, 'pushb': 5, 'popb': 6, 'size': 7, 'empty': 8, 'full': 9}
-CONFIGS = [(1, 0), (1, 1), (2, 0), (2, 1), (3, 0), (3, 1), (4, 0), (4, 1), (5, 0), (6, 0), (7, 1), (8, 0), (15, 0), (16, 1)]
+CONFIGS = [(1, 0), (1, 1), (2, 0), (2, 1), (3, 0), (3, 1), (4, 0), (4, 1), (5, 0), (5, 1), (6, 0), (6, 1), (7, 1), (8, 0), (8, 1),
+           (9, 0), (9, 1), (10, 1), (12, 1), (15, 0), (16, 1)]
+# configurations whose real capacity (kBufferSize - 1) exceeds the requested Capacity (default rounding mode)
+ROUNDED = [(2, 1), (4, 1), (5, 1), (6, 1), (8, 1), (9, 1), (10, 1), (12, 1), (16, 1)]
+
+
+def real_capacity(cap, rnd):
+    if not rnd:
+        return cap
+    k = 1
+    while k < cap + 1:
+        k *= 2
+    return k - 1
+
+
+def op_steps(o):
+    if o[0] in 'PCE': return 4
+    if o[0] in 'ORI': return 5
+    if o[0] == 'B': return 3 + len(o[1])
+    if o[0] == 'Q': return 3 + 2 * o[1]
+    return 2
 BUDGET = 100
 
 
@@ -67,7 +88,67 @@ def gen_sched(r, n):
     return out[:n]
 
 
+def gen_mix(r, cfg=None):
+    """single pushes up to an occupancy around Capacity .. real capacity, then batch pushes mixed with singles (the two paths
+    compute the free space differently), a few pops in between; mostly producer-first schedules"""
+    cap, rnd = cfg or r.choice([(2, 1), (4, 1), (5, 1), (6, 1)] * 3 + [(3, 0), (5, 0), (8, 1), (9, 1)])
+    R = real_capacity(cap, rnd)
+    tag = [0]
+
+    def fresh():
+        tag[0] += 1
+        return tag[0]
+    fill = r.randint(max(1, cap - 1), R)
+    p0 = [(r.choice('PCE'), fresh()) for _ in range(fill)]
+    left = BUDGET - 8 - sum(op_steps(o) for o in p0)
+    p1 = []
+    for _ in range(r.randint(0, 3)):
+        o = (r.choice('ORI'),) if r.random() < 0.7 else ('Q', r.choice([1, 2, 3]))
+        if op_steps(o) < left:
+            p1.append(o); left -= op_steps(o)
+    for _ in range(r.randint(1, 4)):
+        o = ('B', [fresh() for _ in range(r.choice([1, 2, 3, 4, 5]))]) if r.random() < 0.75 else (r.choice('PE'), fresh())
+        if op_steps(o) < left:
+            p0.append(o); left -= op_steps(o)
+    if r.random() < 0.5 and left > 4:
+        p1.append(r.choice([('Z',), ('Q', 2), ('O',)])) if left > 8 else p1.append(('Z',))
+    mode = r.random()
+    if mode < 0.5:      # producer fills alone, then consumer, then producer again ...
+        sched = [0] * (1 + 4 * fill) + [1] * r.choice([1, 6, 11, 16]) + [0] * 30 + [1] * 60
+    elif mode < 0.8:
+        sched = [0] * (1 + 4 * fill) + gen_sched(r, BUDGET)
+    else:
+        sched = gen_sched(r, BUDGET)
+    return {'cap': cap, 'rnd': rnd, 'progs': [p0, p1], 'sched': sched[:BUDGET]}
+
+
+def capacity_probes(quick, cfgs=None):
+    """deterministic family: fill with SINGLE pushes to f elements (f from Capacity-1 up to the real capacity), pop j, then
+    try_push_batch k elements, then drain with one try_pop_batch -- every phase runs alone (quiescent single-thread phases),
+    for all small j, k, on every configuration whose real capacity differs from the requested one and some exact ones"""
+    out = []
+    for cap, rnd in (cfgs or [(2, 1), (4, 1), (5, 1), (6, 1), (9, 1), (16, 1), (2, 0), (3, 0), (5, 0)]):
+        R = real_capacity(cap, rnd)
+        for f in range(max(1, cap - 1), R + 1):
+            for j in ((0, 1) if quick else (0, 1, 2, 3)):
+                for k in ((1, 3) if quick else (1, 2, 3, 4, 6)):
+                    if j > f:
+                        continue
+                    tags = iter(range(1, 200))
+                    prod = [('PCE'[i % 3], next(tags)) for i in range(f)] + [('B', [next(tags) for _ in range(k)])]
+                    drain = min(3, f - j + k)
+                    cons = [('ORI'[i % 3],) for i in range(j)] + [('Z',), ('Q', drain)]
+                    steps = 2 + sum(op_steps(o) for o in prod + cons)
+                    if steps > BUDGET - 4:
+                        continue
+                    sched = [0] * (1 + 4 * f) + [1] * (1 + 5 * j + 2) + [0] * (3 + k) + [1] * BUDGET
+                    out.append({'cap': cap, 'rnd': rnd, 'progs': [prod, cons], 'sched': sched[:BUDGET]})
+    return out
+
+
 def gen_case(r):
+    if r.random() < 0.45:
+        return gen_mix(r)
     cap, rnd = r.choice(CONFIGS[:8] * 3 + CONFIGS)
     tag = [0]
 
@@ -133,6 +214,52 @@ def term_of(c, p, e):
         ls_common.zpairs(e['slots']), e['errs'], dv.zlit(e['dtor_live']), e['dtor_errs'], p['status'])
 
 
+def evaluate(ctx, exe, cases, name='cases'):
+    """run the cases on the real class and judge them in Coq; returns [(case, parsed, output, extra, verdict)] or None"""
+    outs = ls_common.run_cases(exe, [line_of(c) for c in cases])
+    terms, kept = [], []
+    for c, o in zip(cases, outs):
+        p = ls_common.parse_vsched(o, SITES, TAGS)
+        e = parse_extra(p['extra']) if p and 'error' not in p else None
+        if e is None:
+            ctx.broken.append('lockstep harness output unreadable for %s: %s' % (line_of(c)[:200], (o or '')[:200]))
+            continue
+        terms.append(term_of(c, p, e))
+        kept.append((c, p, o, e))
+    verdicts = ls_common.judge_parallel(ctx, 'From DV Require Import Base.Sched Model.SpscModel Model.C35Check.', 'judge_spsc', terms, shard_size=45)
+    if verdicts is None:
+        return None
+    return [(c, p, o, e, v) for (c, p, o, e), v in zip(kept, verdicts)]
+
+
+def report_violation(ctx, c, o, how=''):
+    ctx.violation('SPSCRingBuffer is not an exactly-once bounded FIFO on this run%s (order / loss / duplication / bound / accept-iff-not-full / batch count = min(requested, free) / '
+                  'size / lifetime check failed): %s -> %s' % (how, line_of(c)[:200], o[:400]),
+                  {'case': line_of(c), 'output': o, 'cmd': 'echo "<case>" | build/harness/h_spsc-*'})
+
+
+def ladder(ctx, exe, differing):
+    """search ladder: the real code differs from the model but the property held on those runs -> look for a concrete failing
+    input on the same configurations: the full capacity probe grid, then directed random mixes of single and batch operations"""
+    cfgs = []
+    for c, _, _, _ in differing:
+        if (c['cap'], c['rnd']) not in cfgs:
+            cfgs.append((c['cap'], c['rnd']))
+    cfgs = cfgs[:3]
+    found = 0
+    for stage, cases in (('capacity grid', capacity_probes(False, cfgs)),
+                         ('directed mixes', [gen_mix(ctx.rng, cfg) for cfg in cfgs for _ in range(150)])):
+        res = evaluate(ctx, exe, cases[:600])
+        ctx.cov['ladder_evaluations'] = ctx.cov.get('ladder_evaluations', 0) + len(cases[:600])
+        for c, p, o, e, v in (res or []):
+            if v == 2:
+                found += 1
+                report_violation(ctx, c, o, ' (found by the search ladder, stage: %s)' % stage)
+        if found:
+            break
+    return found
+
+
 def run(ctx):
     ctx.prove(models=['Model/C35Check.v'])
     exe = dv.build_harness('h_spsc', ['h_spsc.cpp'], need_lib=False)
@@ -146,48 +273,47 @@ def run(ctx):
     ]
     n = 110 if ctx.quick else 3000
     pr = probes()
+    cp = capacity_probes(ctx.quick)
     ctx.cov['probe_cases_full_ring_producer_waiting'] = len(pr)
-    cases = fixed + pr + [gen_case(r) for _ in range(n)]
-    outs = ls_common.run_cases(exe, [line_of(c) for c in cases])
-    ctx.phase('run')
-    terms, kept = [], []
-    distinct = set()
-    for c, o in zip(cases, outs):
-        p = ls_common.parse_vsched(o, SITES, TAGS)
-        e = parse_extra(p['extra']) if p and 'error' not in p else None
-        if e is None:
-            ctx.broken.append('lockstep harness output unreadable for %s: %s' % (line_of(c)[:200], (o or '')[:200]))
-            continue
-        terms.append(term_of(c, p, e))
-        kept.append((c, p, o, e))
-        if any(s in (2, 6, 10, 14) for _, s in p['steps']):
-            distinct.add(o.split('| status')[0])
+    ctx.cov['probe_cases_capacity_grid'] = len(cp)
+    cases = fixed + pr + cp + [gen_case(r) for _ in range(n)]
+    res = evaluate(ctx, exe, cases)
     ctx.cov['evaluations'] += len(cases)
-    ctx.cov['distinct_nontrivial'] += len(distinct)
-    ctx.cov['rule'] = ('random producer/consumer scripts (1-6 ops each: single/batch push and pop in all API variants, size/empty/full) x 14 (Capacity, RoundUpToPowerOfTwo) configurations '
-                       '(kBufferSize 2..17) x random or bursty schedules (100 decisions), one fork per case under vsched; non-trivial = some operation reached its full/empty test; '
-                       'distinct = distinct (trace, results, final state) strings; plus the deterministic full-ring probe family (each pop overload / batch, producer spinning on each push variant, producer scheduled after every consumer step)')
-    verdicts = ls_common.judge_parallel(ctx, 'From DV Require Import Base.Sched Model.SpscModel Model.C35Check.', 'judge_spsc', terms, shard_size=45)
-    if verdicts is None:
+    if res is None:
         ctx.broken.append('correspondence L(C35): the model no longer evaluates')
         return
+    distinct = set(o.split('| status')[0] for c, p, o, e, v in res if any(st in (2, 6, 10, 14) for _, st in p['steps']))
+    ctx.cov['distinct_nontrivial'] += len(distinct)
+    ctx.cov['rule'] = ('random producer/consumer scripts (single/batch push and pop in all API variants, size/empty/full; 45% directed mixes: single pushes to an occupancy between Capacity-1 and the real '
+                       'capacity followed by batch pushes) x 21 (Capacity, RoundUpToPowerOfTwo) configurations (kBufferSize 2..32, 9 of them with real capacity > requested Capacity) x random / bursty / '
+                       'phase schedules (100 decisions), one fork per case under vsched; non-trivial = some operation reached its full/empty test; distinct = distinct (trace, results, final state) '
+                       'strings; plus two deterministic probe families: full ring with the producer scheduled after every consumer step, and the capacity grid (fill with singles to f, pop j, batch-push k, drain)')
     hist = {}
-    for v, (c, p, o, e) in zip(verdicts, kept):
+    differing = []
+    for c, p, o, e, v in res:
         hist[v] = hist.get(v, 0) + 1
         if v == 2:
-            ctx.violation('SPSCRingBuffer is not an exactly-once bounded FIFO on this run (order / duplication / bound / accept-iff-not-full / lifetime check failed): %s -> %s'
-                          % (line_of(c)[:200], o[:400]),
-                          {'case': line_of(c), 'output': o, 'cmd': 'echo "<case>" | build/harness/h_spsc-*'})
+            report_violation(ctx, c, o)
         elif v == 1:
-            ctx.broken.append('correspondence L(C35): real trace differs from the model on ' + line_of(c)[:160] + ' -> ' + o[:300])
+            differing.append((c, p, o, e))
+    if differing and not hist.get(2):
+        ctx.phase('correspond')
+        found = ladder(ctx, exe, differing)
+        ctx.cov['ladder_found'] = found
+        ctx.phase('ladder')
+    for c, p, o, e in differing:
+        ctx.broken.append('correspondence L(C35): real trace differs from the model on ' + line_of(c)[:160] + ' -> ' + o[:300])
     ctx.cov['verdict_histogram'] = {'agree': hist.get(0, 0), 'differ_property_holds': hist.get(1, 0), 'property_fails': hist.get(2, 0)}
     ctx.cov['traces_validated_against_impl'] += hist.get(0, 0)
-    ctx.cov['status_histogram'] = {k: sum(1 for _, p, _, _ in kept if p['status'] == v) for k, v in (('done', 0), ('deadlock', 1), ('budget', 2))}
+    ctx.cov['status_histogram'] = {k: sum(1 for _, p, _, _, _ in res if p['status'] == v) for k, v in (('done', 0), ('deadlock', 1), ('budget', 2))}
     ctx.cov['kbuffersize_histogram'] = {}
-    for _, _, _, e in kept:
+    for _, _, _, e, _ in res:
         ctx.cov['kbuffersize_histogram'][e['K']] = ctx.cov['kbuffersize_histogram'].get(e['K'], 0) + 1
-    ctx.cov['cases_with_rejected_push'] = sum(1 for _, p, _, _ in kept if any(tag == 2 for t in p['results'].values() for tag, _ in t))
-    ctx.cov['cases_with_rejected_pop'] = sum(1 for _, p, _, _ in kept if any(tag == 4 for t in p['results'].values() for tag, _ in t))
-    ctx.sample({'case': line_of(cases[1])[:200], 'impl': outs[1][:400]})
-    ctx.sample({'case': line_of(cases[3])[:200], 'impl': outs[3][:400]})
+    ctx.cov['cases_with_rejected_push'] = sum(1 for _, p, _, _, _ in res if any(tag == 2 for t in p['results'].values() for tag, _ in t))
+    ctx.cov['cases_with_rejected_pop'] = sum(1 for _, p, _, _, _ in res if any(tag == 4 for t in p['results'].values() for tag, _ in t))
+    ctx.cov['cases_with_batch_push_above_requested_capacity'] = sum(
+        1 for c, p, _, e, _ in res if real_capacity(c['cap'], c['rnd']) > c['cap'] and any(o[0] == 'B' for o in c['progs'][0])
+        and sum(1 for tag, _ in p['results'].get(0, []) if tag == 1) > c['cap'])
+    ctx.sample({'case': line_of(res[1][0])[:200], 'impl': res[1][2][:400]})
+    ctx.sample({'case': line_of(res[-1][0])[:200], 'impl': res[-1][2][:400]})
     ctx.phase('correspond')
